@@ -10,6 +10,7 @@ import (
 	gogoex "github.com/CrowdStrike/csproto/example/proto3/gogo"
 	v2ex "github.com/CrowdStrike/csproto/example/proto3/googlev2"
 	"google.golang.org/protobuf/proto"
+	"google.golang.org/protobuf/types/known/timestamppb"
 )
 
 // TestC09RacePass: concurrent Size/Marshal on a message nobody mutates, under the race detector
@@ -18,6 +19,9 @@ func TestC09RacePass(t *testing.T) {
 	msgs := []any{
 		&v2ex.TestEvent{Name: "n", Info: "i", Labels: []string{"a", "b"}, Embedded: &v2ex.EmbeddedEvent{ID: 7, Stuff: "s", FavoriteNumbers: []int32{1, 2, 3}}},
 		&gogoex.TestEvent{Name: "n", Info: "i", Labels: []string{"a", "b"}, Embedded: &gogoex.EmbeddedEvent{ID: 7, Stuff: "s", FavoriteNumbers: []int32{1, 2, 3}}},
+		// a generated message holding PLAIN nested messages (no MarshalTo): EncodeNested's runtime-delegating branch
+		&v2ex.EventUsingWKTs{Name: "w", Ts: &timestamppb.Timestamp{Seconds: 1700000000, Nanos: 5}, EventType: v2ex.EventType(1)},
+		&v2ex.EventUsingWKTs{Name: "w2", Ts: &timestamppb.Timestamp{Seconds: 42}},
 	}
 	total := 0
 	for _, m := range msgs {
